@@ -173,6 +173,29 @@ def io_writesds(c, a):
     return {"ret": r}
 
 
+@op("Interop", "GrowSds")
+def io_growsds(c, a):
+    """a later session that only appends n records to the dataset sds_k<k> (unlimited first dimension)"""
+    L = c.L
+    k, ty, shape, n = a["k"], a["type"], list(a["shape"]), a["n"]
+    rec = prod(shape[1:])
+    esz = struct.calcsize("=" + TY[ty][1])
+    raw = sds_bytes(ty, (shape[0] + n) * rec, k)[shape[0] * rec * esz:]
+    b = CBuf(len(raw), raw)
+    r = 0
+    sd = L.SDstart(P(c), DFACC_RDWR)
+    idx = L.SDnametoindex(sd, b"sds_k%d" % k) if sd != FAIL else FAIL
+    s = L.SDselect(sd, idx) if idx != FAIL else FAIL
+    if s == FAIL or L.SDwritedata(s, i32arr([shape[0]] + [0] * (len(shape) - 1)), None, i32arr([n] + shape[1:]), b.ptr) == FAIL:
+        r = FAIL
+    if s != FAIL and L.SDendaccess(s) == FAIL:
+        r = FAIL
+    if sd == FAIL or L.SDend(sd) == FAIL:
+        r = FAIL
+    b.free()
+    return {"ret": r}
+
+
 @op("Interop", "ListSds")
 def io_listsds(c, a):
     L = c.L
